@@ -35,6 +35,17 @@ PROPS = {
         trusted=RECEIVER_TRUST,
         assumptions=["types without '-' (stated restriction); collision witness for types with '-' is a theorem"],
     ),
+    "C13": dict(
+        components=[("config", 2000, 60000)],
+        shrink=False,
+        trusted=["gopkg.in/yaml.v2 parsing and os.ExpandEnv are exercised (files are rendered and read with config.Read), not modelled",
+                 "registry contents are a parameter of the model; the harness registers 12 node types t_<consumes>_<produces> and 3 sources"],
+        assumptions=["structurally complete files (source and nodes present); error handlers are not part of the processing tree for the id clause "
+                     "(the code does not check their ids); `children: []` is never written for handlers",
+                     "a sink with a child makes config.Read panic instead of returning an error: counted as 'not accepted' (model outcome crash)"],
+        not_yet_proved=["completeness: consistent c -> validate c = ok (only soundness accept_sound + accepted_spine_unique are proved; "
+                        "completeness is covered by the Spec oracle clause 'consistent-config-rejected' on generated files)"],
+    ),
     "C07": dict(
         components=[("recovery", 1500, 50000)],
         trusted=RECOVERY_TRUST,
